@@ -12,6 +12,7 @@ VERIF_KINDS = [
     (re.compile(r"possible bit shift underflow/overflow"), "shift"),
     (re.compile(r"possible division by zero"), "div0"),
     (re.compile(r"precondition not satisfied"), "callee-pre"),
+    (re.compile(r"precondition not met: index in bounds"), "index"),
     (re.compile(r"postcondition not satisfied"), "post"),
     (re.compile(r"invariant not satisfied"), "invariant"),
     (re.compile(r"assertion failed"), "assert"),
